@@ -44,12 +44,15 @@ class GridRun:
         self.outcome = 'ok'
         self.msg = None
         self.mid = []   # screen value after each call
+        self.displays = []
 
     def call(self, op, *args):
         self.calls.append((op, args))
         try:
             r = self.ses.op(op, *args)
             self.mid.append(self.ses.screen)
+            if op == 'display':
+                self.displays.append(deref_all(r))
             return r
         except Panic as e:
             self.outcome = 'panic'
@@ -74,20 +77,11 @@ class GridRun:
         sc = {'cols': st['columns'], 'lines': st['lines'], 'state': st, 'steps': self.steps(model)}
         if self.outcome == 'panic':
             return sc, {'ok': False, 'panic': self.msg, 'out': []}
-        outs = []
-        for (op, _), o in zip(self.calls, self.ses.out if False else []):
-            pass
         # display() results are part of mt-replay's output list, in call order
-        k = 0
-        for op, _ in self.calls:
-            if op == 'display':
-                v = self.ses_display_values[k]
-                outs.append(v(model))
-                k += 1
+        ev = Ev(model)
+        outs = [[ev.str(x) for x in d.items] for d in self.displays]
         outs.append(snapshot(self.eng, self.L, self.post, model))
         return sc, {'ok': True, 'out': outs}
-
-    ses_display_values = ()
 
     def describe(self, model):
         st = snapshot(self.eng, self.L, self.pre, model)
@@ -118,7 +112,22 @@ def mode_has(L, s, num):
     return stdlib.map_contains(None, scr(L, s, 'mode'), Int('u32', num))
 
 
+_default_cache = {}
+
+
 def default_cell(L, s):
+    mo = scr(L, s, 'mode')
+    hit = _default_cache.get(id(mo))
+    if hit is not None and hit[0] is mo:
+        return hit[1]
+    d = _default_cell(L, s)
+    if len(_default_cache) > 2000:
+        _default_cache.clear()
+    _default_cache[id(mo)] = (mo, d)
+    return d
+
+
+def _default_cell(L, s):
     f = [None] * len(L.char)
     f[L.char['data']] = Str.of(' ')
     f[L.char['fg']] = Str.of('default')
@@ -142,12 +151,19 @@ def cell_alts(L, s, y, x):
     row_present = False
     yk = y if type(y) is Int else Int('u32', y)
     xk = x if type(x) is Int else Int('u32', x)
-    for (ky, py, row) in buf.e:
+
+    def entries(m, key):
+        if type(key.v) is int:
+            d, sym = m.index()
+            return [m.e[i] for i in d.get(key.v, ())] + [m.e[i] for i in sym]
+        return m.e
+
+    for (ky, py, row) in entries(buf, yk):
         cy = bool_and(py, int_eq(ky, yk))
         if cy is False:
             continue
         cell_present = False
-        for (kx, px, cell) in row.e:
+        for (kx, px, cell) in entries(row, xk):
             cx = bool_and(px, int_eq(kx, xk))
             if cx is False:
                 continue
@@ -155,7 +171,9 @@ def cell_alts(L, s, y, x):
             alts.append((c, cell))
             cell_present = bool_or(cell_present, cx)
         row_present = bool_or(row_present, bool_and(cy, cell_present))
-    alts.append((bool_not(row_present), default_cell(L, s)))
+    absent = bool_not(row_present)
+    if absent is not False:
+        alts.append((absent, default_cell(L, s)))
     return alts
 
 
@@ -164,10 +182,15 @@ def alts_equal(a, b):
     r = True
     for ca, va in a:
         for cb, vb in b:
+            if va is vb:
+                continue
             both = bool_and(ca, cb)
             if both is False:
                 continue
-            r = bool_and(r, bool_or(bool_not(both), same(va, vb)))
+            sv = same(va, vb)
+            if sv is True:
+                continue
+            r = bool_and(r, bool_or(bool_not(both), sv))
             if r is False:
                 return False
     return r
